@@ -42,11 +42,26 @@ type c13Scenario struct {
 	// Whitelist: both links run with a key prefix white list that every client key of the
 	// alphabet passes and none of the tool's bookkeeping keys does
 	Whitelist bool `json:"whitelist,omitempty"`
+	// HashTag: both links run with output.replay.replaceHashTag = true (RedisOutputConfig.ReplaceHashTag).
+	// At HEAD the snapshot lane stores a business key under its name without the first '{' and the
+	// first '}' (bisyncRdbTargetKey, by design), the incremental lane queues the source's key names
+	// as they are; the tool's own bookkeeping keys keep their {slot tag} in both lanes.
+	HashTag bool `json:"replace_hash_tag,omitempty"`
+}
+
+// c13TargetKey is the reference for the key a snapshot entry is stored under at the target.
+func c13TargetKey(key string, replaceHashTag bool) string {
+	if !replaceHashTag {
+		return key
+	}
+	key = strings.Replace(key, "{", "", 1)
+	return strings.Replace(key, "}", "", 1)
 }
 
 // c13Snap is the snapshot part of a scenario: what the sites hold when both links start.
 //
 //	a2     site A holds three keys (two strings, one small hash), site B holds nothing
+//	a2tag  as a2, every key name with a hash tag (snap:{t}s ...)
 //	a2b1   as a2, and site B holds a string under the SAME name as one of A's strings
 //	a2race as a2, and a client of site B creates that same-named key (the LAST key of the
 //	       snapshot) while link A->B is replaying the key: after the link's EXISTS probe,
@@ -160,6 +175,12 @@ func c13SnapKeys(sn *c13Snap) (a, b []c13SnapKey) {
 		c13Str(c13KeyS, "A-s"),
 		{Key: c13KeyH, Val: &ref.RValue{Type: 'h', Hash: []ref.HField{{Field: []byte("f1"), Value: []byte("A-1")}, {Field: []byte("f2"), Value: []byte("A-2")}}}, Enc: ref.RDBEnc{Kind: "listpack"}},
 		c13Str(c13KeyDup, "A-dup"),
+	}
+	if sn.Content == "a2tag" {
+		// as a2, every key name carries a hash tag
+		for i := range a {
+			a[i].Key = strings.Replace(a[i].Key, "snap:", "snap:{t}", 1)
+		}
 	}
 	if sn.Content == "a2racemid" {
 		// the raced key is not the last one: another unit of the link follows the bare marker
@@ -280,6 +301,10 @@ func c13Commands(sym string, i int) [][]string {
 		return [][]string{{"MULTI"}, {"SET", "user:marker:{x}" + p, markerLike}, {"SET", "tf" + p, "1"}, {"EXEC"}}
 	case "expire":
 		return [][]string{{"SET", "k" + p, "v" + p}, {"EXPIRE", "k" + p, "100"}}
+	case "tagset":
+		return [][]string{{"SET", "k{t}" + p, "v" + p}}
+	case "tagtxn":
+		return [][]string{{"MULTI"}, {"SET", "ta{t}" + p, "1"}, {"SET", "tb{t}" + p, "2"}, {"EXEC"}}
 	case "burst":
 		// more plain writes than bisyncFrontierFlushUnitThreshold (512) between two link steps:
 		// the frontier is flushed by count in the middle of one chunk, not by the 100 ms interval
@@ -500,9 +525,13 @@ func c13ExecPlan(t *testing.T, scn c13Scenario, ch *mc.Chooser) (res mc.Result, 
 			if scn.Snap == nil {
 				l.released = len(l.from.srv.ReplBytes())
 				l.s0 = 1000 + int64(l.released)
-				if scn.Whitelist {
+				if scn.Whitelist || scn.HashTag {
+					wl, ht := scn.Whitelist, scn.HashTag
 					biBootCfgHook = func(c *RedisOutputConfig) {
-						c.Filter = config.FilterConfig{KeyFilter: &config.FilterKeyConfig{PrefixKeyWhitelist: []string{"k", "t", "h", "user", "nokey"}}}
+						if wl {
+							c.Filter = config.FilterConfig{KeyFilter: &config.FilterKeyConfig{PrefixKeyWhitelist: []string{"k", "t", "h", "user", "nokey"}}}
+						}
+						c.ReplaceHashTag = ht
 					}
 				}
 				boot = biBoot(scn.Cfg, standaloneCfg(l.to.addr), l.from.name, l.from.runID, l.s0, true, l.to.srv)
@@ -512,6 +541,7 @@ func c13ExecPlan(t *testing.T, scn c13Scenario, ch *mc.Chooser) (res mc.Result, 
 				biBootCfgHook = func(c *RedisOutputConfig) {
 					c.KeyExists = sn.KeyExists
 					c.MaxProtoBulkLen = sn.maxBulk()
+					c.ReplaceHashTag = scn.HashTag
 				}
 				l.snapLo = l.to.srv.NumReqs()
 				if strings.HasPrefix(sn.Content, "a2race") && li == 0 {
@@ -526,6 +556,7 @@ func c13ExecPlan(t *testing.T, scn c13Scenario, ch *mc.Chooser) (res mc.Result, 
 						biBootCfgHook = func(c *RedisOutputConfig) {
 							c.KeyExists = sn.KeyExists
 							c.MaxProtoBulkLen = 512 * 1024 * 1024
+							c.ReplaceHashTag = scn.HashTag
 						}
 						boot = biBoot(scn.Cfg, standaloneCfg(l.to.addr), l.from.name, l.from.runID, l.s0, true, l.to.srv)
 						events++
@@ -737,22 +768,24 @@ func c13ExecPlan(t *testing.T, scn c13Scenario, ch *mc.Chooser) (res mc.Result, 
 				}
 				for _, k := range l.snapKeys {
 					want := c13ToValue(k.Val)
+					// the name the configuration maps the key to in the snapshot lane
+					tk := c13TargetKey(k.Key, scn.HashTag)
 					if scn.Snap.KeyExists == "ignore" {
-						if v, ok := pre[l.to][k.Key]; ok {
+						if v, ok := pre[l.to][tk]; ok {
 							want = v
-						} else if raced && l.to == B && k.Key == c13KeyDup {
+						} else if raced && l.to == B && tk == c13KeyDup {
 							want = &redisd.Value{T: 's', Str: []byte(c13RaceV)}
 						}
 					}
-					got := l.to.srv.Get(0, k.Key)
+					got := l.to.srv.Get(0, tk)
 					if got == nil {
 						res = mc.Violation("a key of the snapshot is missing at the target after the snapshot phase", "C13:snapshot-missing:"+scn.Cfg.Mode,
-							map[string]interface{}{"link": dir, "key": k.Key, "expected": c13Canon(want), "history": describe()})
+							map[string]interface{}{"link": dir, "key": k.Key, "target_key": tk, "expected": c13Canon(want), "history": describe()})
 						return
 					}
 					if c13Canon(got) != c13Canon(want) {
 						res = mc.Violation("a key of the snapshot has other content at the target than the key-exists policy prescribes", "C13:snapshot-content:"+scn.Cfg.Mode+":"+scn.Snap.KeyExists,
-							map[string]interface{}{"link": dir, "key": k.Key, "expected": c13Canon(want), "found": c13Canon(got), "history": describe()})
+							map[string]interface{}{"link": dir, "key": k.Key, "target_key": tk, "expected": c13Canon(want), "found": c13Canon(got), "history": describe()})
 						return
 					}
 				}
@@ -896,7 +929,7 @@ func runC13(t *testing.T, rep *mc.Reporter) {
 		}
 		rec(nil)
 	}
-	// development aid: VERIF_C13_ONLY=incr|snap|idle|size|wl|preempt restricts the enumeration to
+	// development aid: VERIF_C13_ONLY=incr|snap|idle|size|tag|wl|preempt restricts the enumeration to
 	// one family (never set by bin/check; the scenario numbering and sharding differ then)
 	only := os.Getenv("VERIF_C13_ONLY")
 	fam := func(name string) bool { return only == "" || only == name }
@@ -1079,6 +1112,60 @@ func runC13(t *testing.T, rep *mc.Reporter) {
 					continue
 				}
 				scn := c13Scenario{Writes: ws, Cfg: m, WrapSingle: wrap}
+				mc.RunScenario(rep, scn, bound, budget, func(ch *mc.Chooser) mc.Result { return c13Exec(t, scn, ch) })
+			}
+		}
+	}
+	// ---- both links run with replay.replaceHashTag = true: client keys with and without a hash
+	// tag, incremental phase in all three replay modes and snapshot phase (RESTORE and expanded)
+	type tagCase struct {
+		sn *c13Snap
+		ws []c13Write
+	}
+	tagCases := []tagCase{
+		{nil, []c13Write{{0, "tagset"}}},
+		{nil, []c13Write{{0, "txn"}, {1, "tagtxn"}}},
+		{&c13Snap{Content: "a2tag", KeyExists: "replace", Restore: true}, []c13Write{{1, "tagtxn"}}},
+		{&c13Snap{Content: "a2tag", KeyExists: "replace"}, []c13Write{{1, "set"}}},
+	}
+	if tier == "thorough" {
+		tagCases = nil
+		tsyms := []string{"set", "txn", "tagset", "tagtxn"}
+		for _, s1 := range append(append([]string(nil), full...), "tagset", "tagtxn") {
+			tagCases = append(tagCases, tagCase{nil, []c13Write{{0, s1}}})
+		}
+		for _, s1 := range tsyms {
+			for _, s2 := range tsyms {
+				for site := 0; site < 2; site++ {
+					tagCases = append(tagCases, tagCase{nil, []c13Write{{0, s1}, {site, s2}}})
+				}
+			}
+		}
+		for _, content := range []string{"a2tag", "a2"} {
+			for _, ke := range []string{"replace", "ignore"} {
+				for _, rst := range []bool{true, false} {
+					for _, ws := range [][]c13Write{nil, {{1, "tagtxn"}}, {{1, "set"}}, {{0, "tagset"}, {1, "txn"}}} {
+						tagCases = append(tagCases, tagCase{&c13Snap{Content: content, KeyExists: ke, Restore: rst}, ws})
+					}
+				}
+			}
+		}
+	}
+	if !fam("tag") {
+		tagCases = nil
+	}
+	for _, tc := range tagCases {
+		for _, m := range modes {
+			for _, wrap := range []bool{false, true} {
+				idx++
+				if idx%nshards != shard || budget.Expired() {
+					continue
+				}
+				scn := c13Scenario{Writes: tc.ws, Cfg: m, WrapSingle: wrap, HashTag: true}
+				if tc.sn != nil {
+					sn := *tc.sn
+					scn.Snap = &sn
+				}
 				mc.RunScenario(rep, scn, bound, budget, func(ch *mc.Chooser) mc.Result { return c13Exec(t, scn, ch) })
 			}
 		}
